@@ -558,18 +558,25 @@ func (r *c20Run) render(ev map[string]any, willStep int64, fn func()) map[string
 	out := r.w.take()
 	// the fields showProgress computed (total from fileStep, speed from the copy, ETA)
 	now := r.now
-	total := convertSizeToString(float64(r.p.fileStep))
-	speed := rs.getSpeed(r.p.fileStep, &now)
-	// the ETA of a step beyond the size (or of any step of an empty file) is clamped at 0 since
-	// 46f99a5 and was negative before: both texts are computed, the one the code shows is recognised
-	// on the first line that has an ETA and used from then on for the lines that dropped it
+	// (the project's own formatters give the expected field lengths; should they panic on these values the lengths
+	// are unknown and only the call's own outcome is judged)
+	total, fmtOK := "", true
 	speedStr, etaStr, etaAlt := "--- B/s", "--- ETA", "--- ETA"
-	if speed > 0 {
-		speedStr = fmt.Sprintf("%s/s", convertSizeToString(speed))
-		left := math.Round(float64(r.p.fileSize-r.p.fileStep) / speed)
-		etaStr = fmt.Sprintf("%s ETA", convertTimeToString(math.Max(0, left)))
-		etaAlt = fmt.Sprintf("%s ETA", convertTimeToString(left))
-	}
+	func() {
+		defer func() {
+			if recover() != nil {
+				fmtOK = false
+			}
+		}()
+		total = convertSizeToString(float64(r.p.fileStep))
+		speed := rs.getSpeed(r.p.fileStep, &now)
+		if speed > 0 {
+			speedStr = fmt.Sprintf("%s/s", convertSizeToString(speed))
+			left := math.Round(float64(r.p.fileSize-r.p.fileStep) / speed)
+			etaStr = fmt.Sprintf("%s ETA", convertTimeToString(math.Max(0, left)))
+			etaAlt = fmt.Sprintf("%s ETA", convertTimeToString(left))
+		}
+	}()
 	if c20EtaUnclamped {
 		etaStr, etaAlt = etaAlt, etaStr
 	}
@@ -603,7 +610,7 @@ func (r *c20Run) render(ev map[string]any, willStep int64, fn func()) map[string
 				c20EtaUnclamped = !c20EtaUnclamped
 				etaStr = etaAlt
 			}
-			if cls == "ok" && ((nf == 4 && o["ot"] != len(total)) || (nf >= 3 && nf <= 4 && o["os"] != len(speedStr)) ||
+			if cls == "ok" && fmtOK && ((nf == 4 && o["ot"] != len(total)) || (nf >= 3 && nf <= 4 && o["os"] != len(speedStr)) ||
 				(nf >= 2 && nf <= 4 && o["oe"] != len(etaStr))) {
 				r.desync++
 			}
@@ -1234,12 +1241,25 @@ func c20Catalogue(d *vCtx) error {
 		now := start.Add(g.el)
 		var rs recentSpeed
 		rs.initFirstStep(&start)
-		total := convertSizeToString(float64(g.step))
-		speed := rs.getSpeed(g.step, &now)
-		speedStr, etaStr := "--- B/s", "--- ETA"
-		if speed > 0 {
-			speedStr = fmt.Sprintf("%s/s", convertSizeToString(speed))
-			etaStr = fmt.Sprintf("%s ETA", convertTimeToString(math.Max(0, math.Round(float64(g.size-g.step)/speed))))
+		total, speedStr, etaStr, fmtOK := "", "--- B/s", "--- ETA", true
+		func() {
+			defer func() {
+				if recover() != nil {
+					fmtOK = false
+				}
+			}()
+			total = convertSizeToString(float64(g.step))
+			speed := rs.getSpeed(g.step, &now)
+			if speed > 0 {
+				speedStr = fmt.Sprintf("%s/s", convertSizeToString(speed))
+				etaStr = fmt.Sprintf("%s ETA", convertTimeToString(math.Max(0, math.Round(float64(g.size-g.step)/speed))))
+			}
+		}()
+		if !fmtOK {
+			// the project's own formatter panics on these values: no expected texts; the calls of c20_tv with
+			// the same values are where that is observed and judged
+			d.add("catalogue_formatter_panics", 1)
+			continue
 		}
 		pct := "100%"
 		if g.size != 0 {
